@@ -8,12 +8,14 @@
 EXTENDS Links, Json
 CONSTANTS MaxFlat,      \* flat templates with 1..MaxFlat components
           FullPermsUpTo,\* flat templates with at most this many components: every declaration order and kind vector
+          AllKindsUpTo, \* flat templates with at most this many components: every group / class-argument vector
           MaxDeepLinks, \* deep templates: link sets with at most this many links
+          DeepFull,     \* TRUE: every kind vector and declaration order of the deep / nested-key templates
           Emit
 
 RECURSIVE SetToSeq(_)
 SetToSeq(X) == IF X = {} THEN << >> ELSE LET x == CHOOSE y \in X : TRUE IN <<x>> \o SetToSeq(X \ {x})
-Names == <<"a", "b", "c", "d">>
+Names == <<"a", "ab", "c", "d">>      \* "a" is a prefix of "ab" (reorder compares key + ".")
 G == "group"
 S == "sub"
 D(dest, kind, cps) == [dest |-> dest, kind |-> kind, cparams |-> cps]
@@ -22,33 +24,40 @@ D(dest, kind, cps) == [dest |-> dest, kind |-> kind, cparams |-> cps]
 KindVecs(n)  == [1..n -> {G, S}]
 FewKinds(n)  == {[i \in 1..n |-> G], [i \in 1..n |-> S], [i \in 1..n |-> IF i % 2 = 1 THEN G ELSE S],
                  [i \in 1..n |-> IF i \in {2, 3} THEN G ELSE S]}
-Flat(n, kv)  == [decl |-> [i \in 1..n |-> D(<<Names[i]>>, kv[i], << >>)], objs |-> {<<Names[i]>> : i \in 1..n}, deep |-> FALSE]
+Flat(n, kv)  == [decl |-> [i \in 1..n |-> D(<<Names[i]>>, kv[i], << >>)], objs |-> {<<Names[i]>> : i \in 1..n}, plains |-> {}, deep |-> FALSE]
 \* a group declared under a nested key ("n.b"): deeper components are sorted first (_core.py:1226)
 FlatNested(kv) == [decl |-> <<D(<<"a">>, kv[1], << >>), D(<<"n", "b">>, kv[2], << >>), D(<<"c">>, kv[3], << >>)>>,
-                   objs |-> {<<"a">>, <<"n", "b">>, <<"c">>}, deep |-> FALSE]
+                   objs |-> {<<"a">>, <<"n", "b">>, <<"c">>}, plains |-> {}, deep |-> FALSE]
+\* two components and two plain arguments that are link targets (applied by the final pass, _core.py:1250)
+FlatPlain(kv) == [decl |-> <<D(<<"a">>, kv[1], << >>), D(<<"b">>, kv[2], << >>)>>,
+                  objs |-> {<<"a">>, <<"b">>}, plains |-> {<<"t1">>, <<"t2">>}, deep |-> FALSE]
 \* D1: a class group r whose parameter `child` is a class argument, whose spec has a nested class `grand`
 Deep1(ks, ko) == [decl |-> <<D(<<"s">>, ks, << >>), D(<<"r">>, G, <<"child">>), D(<<"o">>, ko, << >>)>>,
-                  objs |-> {<<"s">>, <<"r">>, <<"o">>, <<"r", "child">>, <<"r", "child", "init_args", "grand">>}, deep |-> TRUE]
+                  objs |-> {<<"s">>, <<"r">>, <<"o">>, <<"r", "child">>, <<"r", "child", "init_args", "grand">>}, plains |-> {}, deep |-> TRUE]
 \* D2: a top-level class argument m whose spec has a nested class `enc`
 Deep2(ks, ko) == [decl |-> <<D(<<"s">>, ks, << >>), D(<<"m">>, S, << >>), D(<<"o">>, ko, << >>)>>,
-                  objs |-> {<<"s">>, <<"m">>, <<"o">>, <<"m", "init_args", "enc">>}, deep |-> TRUE]
+                  objs |-> {<<"s">>, <<"m">>, <<"o">>, <<"m", "init_args", "enc">>}, plains |-> {}, deep |-> TRUE]
 
-FlatTemplates == UNION {{Flat(n, kv) : kv \in (IF n <= FullPermsUpTo THEN KindVecs(n) ELSE FewKinds(n))} : n \in 1..MaxFlat}
-                 \cup (IF MaxFlat >= 3 THEN {FlatNested(kv) : kv \in FewKinds(3)} ELSE {})
+FlatTemplates == UNION {{Flat(n, kv) : kv \in (IF n <= AllKindsUpTo THEN KindVecs(n) ELSE FewKinds(n))} : n \in 1..MaxFlat}
+                 \cup (IF MaxFlat >= 3 THEN {FlatNested(kv) : kv \in (IF DeepFull THEN FewKinds(3) ELSE {[i \in 1..3 |-> G], [i \in 1..3 |-> IF i % 2 = 1 THEN G ELSE S]})} ELSE {})
+                 \cup {FlatPlain(kv) : kv \in KindVecs(2)}
 DeepTemplates == IF MaxDeepLinks = 0 THEN {} ELSE
-                 {Deep1(ks, ko) : ks \in {G, S}, ko \in {G, S}} \cup {Deep2(ks, ko) : ks \in {G}, ko \in {G, S}}
+                 IF DeepFull THEN {Deep1(ks, ko) : ks \in {G, S}, ko \in {G, S}} \cup {Deep2(ks, ko) : ks \in {G}, ko \in {G, S}}
+                 ELSE {Deep1(G, G), Deep1(S, S), Deep2(G, S)}
 Templates == FlatTemplates \cup DeepTemplates
 
 \* ------------------------------------------------------------------ declaration orders
 Perms(n) == {p \in [1..n -> 1..n] : \A i, j \in 1..n : i # j => p[i] # p[j]}
 FewPerms(n) == {[i \in 1..n |-> i], [i \in 1..n |-> n + 1 - i], [i \in 1..n |-> (i % n) + 1], [i \in 1..n |-> ((i + 1) % n) + 1]}
-DeclPerms(t) == LET n == Len(t.decl) IN IF t.deep \/ n <= FullPermsUpTo THEN Perms(n) ELSE FewPerms(n)
+DeclPerms(t) == LET n == Len(t.decl) IN
+                IF t.deep THEN (IF DeepFull THEN Perms(n) ELSE {[i \in 1..n |-> i], [i \in 1..n |-> n + 1 - i], [i \in 1..n |-> (i % n) + 1]})
+                ELSE IF n <= FullPermsUpTo THEN Perms(n) ELSE FewPerms(n)
 IdPerm(n) == [i \in 1..n |-> i]
 Permuted(t, p) == [t EXCEPT !.decl = [i \in DOMAIN t.decl |-> t.decl[p[i]]]]
 
 \* ------------------------------------------------------------------ candidate link edges of a template
 \* sources are parser-level components; a source that contains its target is outside the property (Feasible)
-CandEdges(t) == {e \in CompDests(t) \X t.objs : e[1] # e[2] /\ ~Inside(e[2], e[1])}
+CandEdges(t) == {e \in CompDests(t) \X (t.objs \cup t.plains) : e[1] # e[2] /\ ~Inside(e[2], e[1])}
 CandSeq(t)   == SetToSeq(CandEdges(t))
 EdgeSeqs(t)  == IF t.deep
                 THEN {s \in UNION {[1..n -> CandEdges(t)] : n \in 0..MaxDeepLinks} : NoDup(s)}          \* every order
@@ -74,54 +83,77 @@ Merged(t, es) ==
         IN [srcs |-> [j \in DOMAIN ks |-> [obj |-> es[ks[j]][1], attr |-> IF (j + n) % 2 = 0 THEN "" ELSE "v"]],
             tobj |-> tgt, param |-> "pm", fn |-> TRUE]]
 LinksOf(t, es, style) == IF style = 4 THEN Merged(t, es) ELSE [k \in DOMAIN es |-> StyleLink(t, es, k, style)]
-Styles(t) == IF t.deep THEN {0, 3} ELSE IF Len(t.decl) <= FullPermsUpTo THEN {0, 1, 3, 4} ELSE {1, 2, 4}
+Styles(t) == IF t.deep THEN {0, 3} ELSE IF Len(t.decl) <= AllKindsUpTo THEN {0, 1, 2, 3, 4} ELSE IF Len(t.decl) <= FullPermsUpTo THEN {0, 3, 4} ELSE {1, 2, 4}
 
-MkShape(t, p, es, style) == [decl |-> Permuted(t, p).decl, objs |-> t.objs, links |-> LinksOf(t, es, style)]
+\* a plain argument can be the target of one link only (the second link_arguments call finds no action, :145-148)
+PlainOnce(t, es, style) == style = 4 \/ \A i, j \in DOMAIN es : (i # j /\ es[i][2] \in t.plains) => es[i][2] # es[j][2]
+MkShape(t, p, es, style) == [decl |-> Permuted(t, p).decl, objs |-> t.objs, plains |-> t.plains, links |-> LinksOf(t, es, style)]
 
 \* ------------------------------------------------------------------ case mode
 VARIABLES phase, tpl, shape,
-          pc, k, results, order, comps, m          \* machine mode only
-mvars == <<phase, tpl, shape, pc, k, results, order, comps, m>>
-NoShape == [decl |-> << >>, objs |-> {}, links |-> << >>]
-Idle == pc = "-" /\ k = 0 /\ results = << >> /\ order = << >> /\ comps = << >> /\ m = MachineInit
+          pc, ki, results, order, comps, mach          \* machine mode only
+mvars == <<phase, tpl, shape, pc, ki, results, order, comps, mach>>
+NoShape == [decl |-> << >>, objs |-> {}, plains |-> {}, links |-> << >>]
+Idle == pc = "-" /\ ki = 0 /\ results = << >> /\ order = << >> /\ comps = << >> /\ mach = MachineInit
 InitCase == phase = "seed" /\ tpl \in Templates /\ shape = NoShape /\ Idle
-NextCase == /\ phase = "seed" /\ phase' = "case" /\ UNCHANGED <<tpl, pc, k, results, order, comps, m>>
+\* (the run of the algorithm is computed once, when the case state is created: results / comps / mach hold
+\* AlgAddLinks, the plan and the final machine state of the shape)
+NextCase == /\ phase = "seed" /\ phase' = "case" /\ UNCHANGED <<tpl, pc, ki, order>>
             /\ \E es0 \in EdgeSeqs(tpl) : \E es \in OrdersOf(tpl, es0) : \E style \in Styles(tpl) : \E p \in DeclPerms(tpl) :
                  \* the declaration order cannot matter for a rejected link set: one order is enough there
                  /\ (Cyclic(EdgeSet(es)) => p = IdPerm(Len(tpl.decl)))
+                 /\ PlainOnce(tpl, es, style)
                  /\ shape' = MkShape(tpl, p, es, style)
+            /\ results' = AlgAddLinks(shape', 1)
+            /\ comps' = (IF AllAccepted(shape', results') THEN PlannedComponents(shape', InstantiationOrder(shape', shape'.links).order) ELSE << >>)
+            /\ mach' = (IF AllAccepted(shape', results') THEN AlgInstantiate(shape') ELSE MachineInit)
 
 Case == phase = "case"
-Accepted(sh) == ~Cyclic(LinkEdgeSet(sh.links))
+Accepted(sh) == AllAccepted(sh, AlgAddLinks(sh, 1))
 Run(sh)      == AlgInstantiate(sh)
 Plan(sh)     == PlannedComponents(sh, InstantiationOrder(sh, sh.links).order)
 
-\* The recorded deviation (finding C16 deep-target-misordered): the graph node of a target that lies INSIDE a class
-\* argument is not connected to the component that constructs it, so that component can be planned before a
-\* source of the link.  Named here; everything outside it must refine Ref.
-DeepTargetMisordered(sh) ==
-  \E i \in DOMAIN sh.links : \E j \in DOMAIN sh.links[i].srcs :
-     LET own == OwnerOf(sh, sh.links[i].tobj)
-         src == sh.links[i].srcs[j].obj
-     IN own # sh.links[i].tobj /\ Index(Plan(sh), own) < Index(Plan(sh), src)
+\* The recorded deviation (finding C16 nested-target-misordered).  When the receiving object lies INSIDE another
+\* component (a class-typed parameter of a class group such as r.child, or a nested class in the spec of a class
+\* argument such as r.child.init_args.grand) the plan can put the component that constructs it before a source of
+\* the link: the graph node of a deep target is connected to its owner only when the owner is itself a target
+\* (:424-431), and reorder (:442) drags r.child along with the key r.  Named here; everything else must refine Ref.
+NestedTarget(sh, l) == \E c \in CompDests(sh) : Inside(l.tobj, c)
+MisorderedLinksP(sh, plan) == {i \in DOMAIN sh.links : NestedTarget(sh, sh.links[i]) /\ \E j \in DOMAIN sh.links[i].srcs :
+                                 Index(plan, OwnerOf(sh, sh.links[i].tobj)) < Index(plan, sh.links[i].srcs[j].obj)}
+MisorderedLinks(sh) == MisorderedLinksP(sh, Plan(sh))
+NestedTargetMisordered(sh) == MisorderedLinks(sh) # {}
+\* Second recorded deviation (finding C16 nested-source-unreachable): a class-typed parameter of a class group
+\* (r.child) used as a link SOURCE is looked up as cfg["r.child"] when the link is applied; if the group r has been
+\* instantiated before that, the key is gone and instantiate_classes raises NSKeyError.
+UnreachableLinksP(sh, plan) == {i \in DOMAIN sh.links : \E j \in DOMAIN sh.links[i].srcs : \E g \in CompDests(sh) :
+                                  /\ IsGroup(sh, g) /\ Inside(sh.links[i].srcs[j].obj, g)
+                                  /\ (sh.links[i].tobj \in sh.plains \/ Index(plan, g) < Index(plan, OwnerOf(sh, sh.links[i].tobj)))}
+UnreachableLinks(sh) == UnreachableLinksP(sh, Plan(sh))
+NestedSourceUnreachable(sh) == UnreachableLinks(sh) # {}
+Deviation(sh) == NestedTargetMisordered(sh) \/ NestedSourceUnreachable(sh)
 
-\* C16 (b), design level
-AddRefinesRef == Case => RefAddOK(shape.links, AlgAddLinks(shape, 1))
-AlgRefinesRef == (Case /\ Accepted(shape) /\ Feasible(shape) /\ ~DeepTargetMisordered(shape)) =>
-                   LET m == Run(shape) IN ~m.failed /\ RefInstOK(shape, m.log) /\ FnCalledOnce(m.log, shape.links)
-                                          /\ m.applied = DOMAIN shape.links
-\* the deviation is exactly where the algorithm breaks the property (so the finding is neither wider nor narrower)
-DeviationExact == (Case /\ Accepted(shape) /\ Feasible(shape) /\ DeepTargetMisordered(shape)) =>
-                   LET m == Run(shape) IN m.failed \/ ~RefInstOK(shape, m.log)
-\* every component is planned exactly once, and the plan is a topological order of the component-level links
-PlanSane == (Case /\ Accepted(shape)) =>
-              /\ IsPermOf(Plan(shape), CompDests(shape))
-              /\ \A c1, c2 \in CompDests(shape) : (Inside(c2, c1) /\ Has(Plan(shape), c1)) => Index(Plan(shape), c2) < Index(Plan(shape), c1)
+\* C16 (b), design level (case mode: results / comps / mach are the stored run of `shape`)
+Acc  == AllAccepted(shape, results)
+Mis  == MisorderedLinksP(shape, comps) # {}
+Unr  == UnreachableLinksP(shape, comps) # {}
+AddRefinesRef == Case => RefAddOK(shape, results)
+AlgRefinesRef == (Case /\ Acc /\ Feasible(shape) /\ ~Mis /\ ~Unr) =>
+                   /\ ~mach.failed /\ RefInstOK(shape, mach.log) /\ FnCalledOnce(mach.log, shape.links)
+                   /\ RefPlainOK(shape, FinalPlain(shape, mach))
+                   /\ mach.applied = DOMAIN shape.links
+\* the deviations are exactly where the algorithm breaks the property (the findings are neither wider nor narrower)
+DeviationExact == (Case /\ Acc /\ Feasible(shape) /\ (Mis \/ Unr)) => (mach.failed \/ ~RefInstOK(shape, mach.log))
+\* ... and the second deviation is exactly the NSKeyError of the transcription
+UnreachableExact == (Case /\ Acc /\ Feasible(shape) /\ ~Mis) => (Unr <=> mach.failed)
+\* every component is planned exactly once, inner components before the ones that contain them
+PlanSane == (Case /\ Acc) =>
+              /\ IsPermOf(comps, CompDests(shape))
+              /\ \A c1, c2 \in CompDests(shape) : Inside(c2, c1) => Index(comps, c2) < Index(comps, c1)
 \* the graph node computed by the algorithm is the receiving object of the Ref vocabulary
 TargetNodeIsObject == Case => \A i \in DOMAIN shape.links : TargetNode(TargetKey(shape, shape.links[i])) = shape.links[i].tobj
-ShapeSane == Case => /\ \A i \in DOMAIN shape.links : shape.links[i].tobj \in shape.objs
+ShapeSane == Case => /\ \A i \in DOMAIN shape.links : shape.links[i].tobj \in shape.objs \cup shape.plains
                                                        /\ \A j \in DOMAIN shape.links[i].srcs : shape.links[i].srcs[j].obj \in CompDests(shape)
-                     /\ Feasible(shape) \/ ~Accepted(shape)
 
 \* ------------------------------------------------------------------ emission
 ValJson(v) == v
@@ -129,72 +161,74 @@ LogJson(log) == [n \in DOMAIN log |->
                    IF log[n].ev = "new" THEN [ev |-> "new", obj |-> log[n].obj,
                                               kw |-> LET ps == SetToSeq(DOMAIN log[n].kw) IN [x \in DOMAIN ps |-> <<ps[x], log[n].kw[ps[x]]>>]]
                    ELSE [ev |-> "fn", link |-> log[n].link, args |-> log[n].args]]
-ShapeJson(sh) == [decl |-> sh.decl, objs |-> SetToSeq(sh.objs), links |-> sh.links]
+ShapeJson(sh) == [decl |-> sh.decl, objs |-> SetToSeq(sh.objs), plains |-> SetToSeq(sh.plains), links |-> sh.links]
 EmitCase == (Case /\ Emit) =>
-  LET add == AlgAddLinks(shape, 1)
-      acc == Accepted(shape)
-      m   == IF acc THEN Run(shape) ELSE MachineInit
-  IN PrintT(ToJson([shape |-> ShapeJson(shape), add |-> add, cyclic |-> ~acc,
-                    dev |-> (acc /\ DeepTargetMisordered(shape)),
-                    plan |-> IF acc THEN Plan(shape) ELSE << >>,
-                    failed |-> m.failed, log |-> LogJson(m.log)]))
+  PrintT(ToJson([shape |-> ShapeJson(shape), add |-> results, accepted |-> Acc, feasible |-> Feasible(shape),
+                 dev |-> (Acc /\ (Mis \/ Unr)), plan |-> comps,
+                 failed |-> mach.failed, log |-> LogJson(mach.log),
+                 final |-> LET ps == SetToSeq(shape.plains) IN [x \in DOMAIN ps |-> <<ps[x], FinalPlain(shape, mach)[ps[x]]>>]]))
+
+ASSUME PrintT(<<"SEEDS", Cardinality(Templates)>>)
 
 \* ------------------------------------------------------------------ machine mode
 \* pc: "add" (link_arguments calls) -> "plan" -> "apply"/"build" per component -> "rest" -> "done" | "rejected" | "failed"
 InitMachine == /\ phase = "case" /\ tpl \in Templates
                /\ \E es0 \in EdgeSeqs(tpl) : \E style \in Styles(tpl) : \E p \in DeclPerms(tpl) :
                     /\ (Cyclic(EdgeSet(es0)) => p = IdPerm(Len(tpl.decl)))
+                    /\ PlainOnce(tpl, es0, style)
                     /\ shape = MkShape(tpl, p, es0, style)
-               /\ pc = "add" /\ k = 1 /\ results = << >> /\ order = << >> /\ comps = << >> /\ m = MachineInit
+               /\ pc = "add" /\ ki = 1 /\ results = << >> /\ order = << >> /\ comps = << >> /\ mach = MachineInit
 AddLink ==   \* ActionLink.__init__:191-198
-  /\ pc = "add" /\ k <= Len(shape.links)
-  /\ LET o == InstantiationOrder(shape, SubLinks(shape.links, k)) IN
-       IF o.raised THEN results' = Append(results, "rejected") /\ pc' = "rejected" /\ k' = k
-       ELSE results' = Append(results, "ok") /\ k' = k + 1 /\ pc' = "add"
-  /\ UNCHANGED <<phase, tpl, shape, order, comps, m>>
+  /\ pc = "add" /\ ki <= Len(shape.links)
+  /\ LET o == InstantiationOrder(shape, SubLinks(shape.links, ki)) IN
+       IF o.raised THEN results' = Append(results, "rejected") /\ pc' = "rejected" /\ ki' = ki
+       ELSE results' = Append(results, "ok") /\ ki' = ki + 1 /\ pc' = "add"
+  /\ UNCHANGED <<phase, tpl, shape, order, comps, mach>>
 MakePlan ==  \* _core.py:1214-1228
-  /\ pc = "add" /\ k > Len(shape.links)
+  /\ pc = "add" /\ ki > Len(shape.links)
   /\ order' = InstantiationOrder(shape, shape.links).order
   /\ comps' = PlannedComponents(shape, order')
-  /\ k' = 1 /\ pc' = "apply"
-  /\ UNCHANGED <<phase, tpl, shape, results, m>>
+  /\ ki' = 1 /\ pc' = "apply"
+  /\ UNCHANGED <<phase, tpl, shape, results, mach>>
 ApplyStep == \* _core.py:1232
-  /\ pc = "apply" /\ k <= Len(comps)
-  /\ m' = ApplyFor(shape, m, comps[k])
-  /\ pc' = (IF m'.failed THEN "failed" ELSE "build")
-  /\ UNCHANGED <<phase, tpl, shape, k, results, order, comps>>
+  /\ pc = "apply" /\ ki <= Len(comps)
+  /\ mach' = ApplyFor(shape, mach, comps[ki])
+  /\ pc' = (IF mach'.failed THEN "failed" ELSE "build")
+  /\ UNCHANGED <<phase, tpl, shape, ki, results, order, comps>>
 BuildStep == \* _core.py:1233-1248
   /\ pc = "build"
-  /\ m' = Construct(shape, m, comps[k])
-  /\ k' = k + 1 /\ pc' = "apply"
+  /\ mach' = Construct(shape, mach, comps[ki])
+  /\ ki' = ki + 1 /\ pc' = "apply"
   /\ UNCHANGED <<phase, tpl, shape, results, order, comps>>
 RestStep ==  \* _core.py:1250
-  /\ pc = "apply" /\ k > Len(comps)
-  /\ m' = ApplyRest(shape, m, order)
-  /\ pc' = (IF m'.failed THEN "failed" ELSE "done")
-  /\ UNCHANGED <<phase, tpl, shape, k, results, order, comps>>
+  /\ pc = "apply" /\ ki > Len(comps)
+  /\ mach' = ApplyRest(shape, mach, order)
+  /\ pc' = (IF mach'.failed THEN "failed" ELSE "done")
+  /\ UNCHANGED <<phase, tpl, shape, ki, results, order, comps>>
 NextMachine == AddLink \/ MakePlan \/ ApplyStep \/ BuildStep \/ RestStep
 
 \* invariants of the machine
 MTypeOK == /\ pc \in {"add", "apply", "build", "done", "rejected", "failed"}
-           /\ m.applied \subseteq DOMAIN shape.links /\ m.built \subseteq shape.objs
+           /\ mach.applied \subseteq DOMAIN shape.links /\ mach.built \subseteq shape.objs
 \* the bookkeeping of __applied_instantiation_links__: a link's compute function runs once, a written value is
 \* never written again, what is recorded as applied has been written
-Bookkeeping == /\ \A i \in m.applied : TargetKey(shape, shape.links[i]) \in DOMAIN m.vals
-               /\ \A i \in DOMAIN shape.links : Cardinality({n \in DOMAIN m.log : m.log[n].ev = "fn" /\ m.log[n].link = i}) <= 1
-               /\ \A o \in shape.objs : Cardinality(NewOf(m.log, o)) <= 1
+Bookkeeping == /\ \A i \in mach.applied : TargetKey(shape, shape.links[i]) \in DOMAIN mach.vals
+               /\ \A i \in DOMAIN shape.links : Cardinality({n \in DOMAIN mach.log : mach.log[n].ev = "fn" /\ mach.log[n].link = i}) <= 1
+               /\ \A o \in shape.objs : Cardinality(NewOf(mach.log, o)) <= 1
 \* outside the recorded deviation no link is ever fed from an object that does not exist yet
-NoStale == (Feasible(shape) /\ ~DeepTargetMisordered(shape) /\ pc # "rejected") =>
+NoStale == (Feasible(shape) /\ ~Deviation(shape) /\ pc # "rejected") =>
              /\ pc # "failed"
-             /\ \A key \in DOMAIN m.vals : m.vals[key].k # "stale"
-                                          /\ (m.vals[key].k = "fn" => \A j \in DOMAIN m.vals[key].args : m.vals[key].args[j].k # "stale")
+             /\ \A key \in DOMAIN mach.vals : mach.vals[key].k # "stale"
+                                          /\ (mach.vals[key].k = "fn" => \A j \in DOMAIN mach.vals[key].args : mach.vals[key].args[j].k # "stale")
 \* a link is applied before the object it feeds is constructed
-AppliedBeforeBuilt == (Feasible(shape) /\ ~DeepTargetMisordered(shape)) =>
-                        \A i \in DOMAIN shape.links : shape.links[i].tobj \in m.built => i \in m.applied
+AppliedBeforeBuilt == (Feasible(shape) /\ ~Deviation(shape)) =>
+                        /\ \A i \in DOMAIN shape.links : shape.links[i].tobj \in mach.built => i \in mach.applied
+                        /\ pc = "done" => mach.applied = DOMAIN shape.links
 \* the machine ends exactly where the fold says, and the property holds there
-MachineAgreesWithFold == /\ pc = "done" => (m = Run(shape) /\ results = AlgAddLinks(shape, 1))
+MachineAgreesWithFold == /\ pc = "done" => (mach = Run(shape) /\ results = AlgAddLinks(shape, 1))
                          /\ pc = "failed" => Run(shape).failed
                          /\ pc = "rejected" => results = AlgAddLinks(shape, 1)
-DoneRefinesRef == (pc = "done" /\ Feasible(shape) /\ ~DeepTargetMisordered(shape)) => RefInstOK(shape, m.log)
-RejectedRefinesRef == (pc \in {"rejected", "done", "failed"}) => RefAddOK(shape.links, results)
+DoneRefinesRef == (pc = "done" /\ Feasible(shape) /\ ~Deviation(shape)) =>
+                    RefInstOK(shape, mach.log) /\ RefPlainOK(shape, FinalPlain(shape, mach))
+RejectedRefinesRef == (pc \in {"rejected", "done", "failed"}) => RefAddOK(shape, results)
 =============================================================================
